@@ -532,7 +532,7 @@ def network(profile="exact", max_ops=6, dtypes=("int8", "int8", "int8", "uint8",
                     "maximum", "minimum", "mul_const", "padconv", "add", "sub", "add_const"]
         reshape_plan = None
         if profile == "reshapes":  # every kind of operator directly before and/or after a RESHAPE (the rewrites must keep the operator's own shapes)
-            menu = list(EXACT_OPS) + APPROX_TAIL_OPS
+            menu = list(EXACT_OPS) + APPROX_TAIL_OPS + ["transpose", "transpose", "pack", "unpack", "split_v", "argmax_tail"]
             reshape_plan = draw(st.sampled_from(["after", "after", "before", "both"]))
             n_ops = 3 if reshape_plan == "both" else 2
         if profile == "mixed":  # exact-class operators interleaved with CPU-resident operators that have a reference kernel (stride-4 convolution, TILE), with heavy
